@@ -199,3 +199,70 @@ package interpreter
 //@     invariant [view] forallstr(a, forallstr(c, bal(s, a, c) == old(bal(s, a, c))))
 //@     invariant [cache-grew] cacheGrew(s)
 //@     invariant [state] stateOk(s)
+
+// Send as much as possible: every listed account is drained (subject to caps); unbounded
+// sources and allotments are rejected unless a `max` cap encloses them.
+//@ func (*programState).sendAll
+//@   requires [wf] wf(source)
+//@   requires [state] stateOk(s)
+//@   ensures [result] {C02,C03,C04} err == nil ==> result != nil && val(result) >= 0
+//@   ensures [total] {C03,C04} err == nil ==> sumMon(s.Senders, len(s.Senders)) == old(sumMon(s.Senders, len(s.Senders))) + val(result)
+//@   ensures [rejects-allotment] {C04,C17} typeis(source, *parser.SourceAllotment) ==> typeis(err, InvalidAllotmentInSendAll)
+//@   ensures [result-owned] {C05,C11} err == nil ==> fresh(ref(result))
+//@   ensures [prefix-kept] {C04} err == nil ==> len(s.Senders) >= old(len(s.Senders)) && forall(j, 0, old(len(s.Senders)), s.Senders[j] == old(s.Senders[j]))
+//@   ensures [new-senders] {C02,C05} err == nil ==> newSendersOk(s, old(len(s.Senders)))
+//@   ensures [view-unchanged] {C01,C09} forallstr(a, forallstr(c, bal(s, a, c) == old(bal(s, a, c))))
+//@   ensures [cache-grew] {C10,C11} cacheGrew(s)
+//@   ensures [state-ok] stateOk(s)
+//@   ensures [amounts-untouched] {C11} heapsame(bigint)
+//@   modifies s.Senders, entries(s.CachedBalances), allentries("map[string]*math/big.Int")
+//@   loop 1
+//@     invariant [sent] {C03,C04} totalSent != nil && fresh(ref(totalSent)) && val(totalSent) >= 0 && sumMon(s.Senders, len(s.Senders)) == old(sumMon(s.Senders, len(s.Senders))) + val(totalSent)
+//@     invariant [noalias] forall(j, 0, len(s.Senders), s.Senders[j].Monetary != totalSent) && notCell(s, totalSent)
+//@     invariant [prefix] len(s.Senders) >= old(len(s.Senders)) && forall(j, 0, old(len(s.Senders)), s.Senders[j] == old(s.Senders[j]))
+//@     invariant [new-senders] newSendersOk(s, old(len(s.Senders)))
+//@     invariant [view] forallstr(a, forallstr(c, bal(s, a, c) == old(bal(s, a, c))))
+//@     invariant [cache-grew] cacheGrew(s)
+//@     invariant [state] stateOk(s)
+
+// ---------------------------------------------------------------- destinations
+
+//@ spec receiversOk(st) = forall(j, 0, len(st.Receivers), st.Receivers[j].Monetary != nil)
+// receivers queued by a call: positive amounts whose big integer is either allocated by the call or the argument itself
+//@ spec newReceiversOk(s, L0, amount) = forall(j, L0, len(s.Receivers), s.Receivers[j].Monetary != nil && val(s.Receivers[j].Monetary) > 0 && (fresh(ref(s.Receivers[j].Monetary)) || s.Receivers[j].Monetary == amount))
+
+//@ func (*programState).receiveFromKeptOrDest
+//@   requires [wf] wf(keptOrDest) && amount != nil && val(amount) >= 0
+//@   requires [state] varsOk(s) && receiversOk(s)
+//@   ensures [distributes-all] {C03,C05} err == nil ==> sumMon(s.Receivers, len(s.Receivers)) == old(sumMon(s.Receivers, len(s.Receivers))) + val(amount)
+//@   ensures [prefix-kept] {C05} err == nil ==> len(s.Receivers) >= old(len(s.Receivers)) && forall(j, 0, old(len(s.Receivers)), s.Receivers[j] == old(s.Receivers[j]))
+//@   ensures [new-receivers] {C02,C05} err == nil ==> newReceiversOk(s, old(len(s.Receivers)), amount)
+//@   ensures [state-ok] varsOk(s) && receiversOk(s)
+//@   ensures [amounts-untouched] {C05,C11} heapsame(bigint)
+//@   modifies s.Receivers
+
+//@ func (*programState).receiveFrom
+//@   requires [wf] wf(destination) && amount != nil && val(amount) >= 0
+//@   requires [state] varsOk(s) && receiversOk(s)
+//@   ensures [distributes-all] {C03,C05} err == nil ==> sumMon(s.Receivers, len(s.Receivers)) == old(sumMon(s.Receivers, len(s.Receivers))) + val(amount)
+//@   ensures [prefix-kept] {C05} err == nil ==> len(s.Receivers) >= old(len(s.Receivers)) && forall(j, 0, old(len(s.Receivers)), s.Receivers[j] == old(s.Receivers[j]))
+//@   ensures [new-receivers] {C02,C05} err == nil ==> newReceiversOk(s, old(len(s.Receivers)), amount)
+//@   ensures [state-ok] varsOk(s) && receiversOk(s)
+//@   ensures [amounts-untouched] {C05,C11} heapsame(bigint)
+//@   modifies s.Receivers
+//@   loop 1
+//@     invariant [items] len(items) == iter && forall(j, 0, iter, items[j] == as(destination, *parser.DestinationAllotment).Items[j].Allotment)
+//@   loop 2
+//@     invariant [received] {C05} sumMon(s.Receivers, len(s.Receivers)) == old(sumMon(s.Receivers, len(s.Receivers))) + sumVals(allot, iter)
+//@     invariant [allot] len(allot) == len(as(destination, *parser.DestinationAllotment).Items) && sumVals(allot, len(allot)) == val(amount) && forall(j, 0, len(allot), allot[j] != nil && val(allot[j]) >= 0 && fresh(ref(allot[j])))
+//@     invariant [total] receivedTotal != nil && fresh(ref(receivedTotal)) && forall(j, 0, len(s.Receivers), s.Receivers[j].Monetary != receivedTotal) && forall(j, 0, len(allot), allot[j] != receivedTotal)
+//@     invariant [prefix] len(s.Receivers) >= old(len(s.Receivers)) && forall(j, 0, old(len(s.Receivers)), s.Receivers[j] == old(s.Receivers[j]))
+//@     invariant [new-receivers] forall(j, old(len(s.Receivers)), len(s.Receivers), s.Receivers[j].Monetary != nil && val(s.Receivers[j].Monetary) > 0 && fresh(ref(s.Receivers[j].Monetary)))
+//@     invariant [state] varsOk(s) && receiversOk(s)
+//@   loop 3
+//@     invariant [left] {C05} val(remainingAmount) + sumMon(s.Receivers, len(s.Receivers)) == val(amount) + old(sumMon(s.Receivers, len(s.Receivers)))
+//@     invariant [left-range] {C05} remainingAmount != nil && fresh(ref(remainingAmount)) && 0 <= val(remainingAmount) && val(remainingAmount) <= val(amount)
+//@     invariant [noalias] {C05} forall(j, 0, len(s.Receivers), s.Receivers[j].Monetary != remainingAmount)
+//@     invariant [prefix] len(s.Receivers) >= old(len(s.Receivers)) && forall(j, 0, old(len(s.Receivers)), s.Receivers[j] == old(s.Receivers[j]))
+//@     invariant [new-receivers] forall(j, old(len(s.Receivers)), len(s.Receivers), s.Receivers[j].Monetary != nil && val(s.Receivers[j].Monetary) > 0 && fresh(ref(s.Receivers[j].Monetary)))
+//@     invariant [state] varsOk(s) && receiversOk(s)
